@@ -168,7 +168,7 @@ def r_gather_scatter(cx):
     cx.count("R-GATHER-SCATTER", "operators", n)
 
 
-@rule("R-INDEX-SPACE", ["C11"])
+@rule("R-INDEX-SPACE", ["C11", "C14"])
 def r_index_space(cx):
     """combine_descriptors: arrays of the `from` descriptor may only be indexed by positions found in from.post"""
     name = "inner_op::adapt::combine_descriptors"
